@@ -214,7 +214,7 @@ func genRandom(r *common.RNG) []byte {
 
 // a well-formed archive by construction (checked with wfArchive before use)
 func genWF(r *common.RNG) *txtar.Archive {
-	wfLines := []string{"hello", "\ufeffhello", "\ufeff", "--a --", "-- --", "--  --", " -- a --", "-- a -- x", ">", "", "é ", "--"}
+	wfLines := []string{"hello", "\ufeffhello", "\ufeff", "-- a --\rjunk", "-- a\rb --", "-- a --\r\r", "x\ry", "\r", "-- \xff --x", "--a --", "-- --", "--  --", " -- a --", "-- a -- x", ">", "", "é ", "--"}
 	text := func() []byte {
 		var b []byte
 		for i, n := 0, r.Intn(4); i < n; i++ {
